@@ -200,7 +200,8 @@ func checkC14(r *Run) {
 					}
 					bundleJobs++
 					res, pan := buildSafe(api.BuildOptions{EntryPoints: []string{"/entry.js"}, Bundle: true, Write: false, Outdir: "/out", Format: format, Target: tgt.t, Splitting: splitting,
-						MinifyWhitespace: minify, MinifySyntax: minify, MinifyIdentifiers: minify, Plugins: []api.Plugin{memPlugin(graph)}, Platform: api.PlatformNode, GlobalName: map[bool]string{true: "G", false: ""}[format == api.FormatIIFE]})
+						MinifyWhitespace: minify, MinifySyntax: minify, MinifyIdentifiers: minify, Plugins: []api.Plugin{memPlugin(graph)}, Platform: api.PlatformNode,
+						GlobalName: map[bool]string{true: []string{"G", "My.lib.core", "this.app.api", "a[\"b-c\"].d"}[bundleJobs%4], false: ""}[format == api.FormatIIFE]})
 					r.Eval(1)
 					atomic.AddInt64(&st.builds, 1)
 					if pan != "" {
